@@ -29,7 +29,7 @@ theorem newNode_inv {f : Forest} (hi : f.Inv) (v : Value) : (f.newNode v).1.Inv 
     | inr hh => subst hh; exact Nat.lt_succ_self _
   · show validList (!f.everOff) (f.roots ++ [.node f.next v []]) = true
     rw [validList_append, h4]
-    simp [validTree_node, kidsOK, kidsOrdered, keysUnique, noAdjacentText]
+    simp [fi_validTree_node, kidsOK, kidsOrdered, keysUnique, noAdjacentText]
 
 /-! ### Setters -/
 
